@@ -414,7 +414,8 @@ class Check(PropertyCheck):
                   "inject_is_spoofed_data, kill_in_message_hook_still_relays, kill_is_plain_completion), "
                   "half_close_propagated_while_other_direction_flows, half_close_emitted_once_quiescent (closes buffered behind "
                   "hooks), full_close_only_when_ending, tcp_ends_only_when_both_directions_closed, at_most_one_end_or_error, "
-                  "exactly_one_end_or_error, connect_failure_fires_error, never_connected_relays_nothing (whole history: without a "
+                  "exactly_one_end_or_error (+ exactly_one_end_or_error_of_schedule: `started` derived from Start being in the "
+                  "schedule), connect_failure_fires_error, never_connected_relays_nothing (whole history: without a "
                   "successful OpenConnection only start hook / OpenConnection / error hook / client close are ever yielded), "
                   "nothing_relayed_after_end, "
                   "open_connection_reply_truthy_iff_failed + failed_connect_ends_flow_with_error + empty_reply_is_taken_as_success "
